@@ -742,7 +742,7 @@ pub fn worker(params: &Value, case: &Value) -> Value {
     let hist: Vec<usize> = serde_json::from_value(case["hist"].clone()).expect("hist");
     let mut rep = run_once(&p, &hist);
     if rep.status == "violation" {
-        let first_line = |s: &str| s.lines().next().unwrap_or("").to_string();
+        let first_line = crate::explore::failure_signature;
         let mut n = 0;
         for _ in 0..2 {
             let r2 = run_once(&p, &hist);
